@@ -173,6 +173,33 @@ pub fn check(_ctx: &Ctx, c: &Num, acc: &mut Acc) -> Result<(), Fail> {
                     "content-format id {n} ({w:?}) is reported as invalid"
                 ),
             }
+            // the number -> name direction as Packet::get_content_format reads it,
+            // whatever else the message carries
+            if n <= 65535 {
+                for ctx_i in 0..6u8 {
+                    let mut p = Packet::new();
+                    p.header.code = MessageClass::from([0x00u8, 0x01, 0x45, 0x84, 0x02, 0x45][ctx_i as usize]);
+                    if ctx_i >= 2 {
+                        p.set_observe_value(7);
+                    }
+                    if ctx_i == 4 || ctx_i == 5 {
+                        p.add_option(CoapOption::UriPath, b"x".to_vec());
+                        p.payload = vec![1];
+                    }
+                    p.add_option(CoapOption::ContentFormat, crate::props::c01::min_uint(n as u64));
+                    let r = match catch(|| p.get_content_format()) {
+                        Ok(r) => r,
+                        Err(msg) => fail!("c05-content-format-getter", "get_content_format panicked on id {n}: {msg}"),
+                    };
+                    ensure!(
+                        r == want,
+                        "c05-content-format-getter",
+                        "Content-Format {n} in a message with code {:?}{}: get_content_format() = {r:?}, registry says {want:?}",
+                        p.header.code,
+                        if ctx_i >= 2 { " and an Observe option" } else { "" }
+                    );
+                }
+            }
             if near_named(n, &named) {
                 acc.nontrivial_enum();
                 acc.sample("content-format", || json!({"id": n, "result": format!("{got:?}")}));
@@ -437,6 +464,59 @@ pub fn check(_ctx: &Ctx, c: &Num, acc: &mut Acc) -> Result<(), Fail> {
                         "setters (order {o:?}, from {start:#04x}) for version {ver} type {want_t:?} tkl {tkl} encode as {:#04x}, expected {b:#04x}",
                         buf[0]
                     );
+                }
+            }
+            // every code byte behind this first byte: the parsed class is the
+            // table's, whatever type / version / token length come with it
+            if tkl <= 8 {
+                for code in 0..=255u8 {
+                    let mut dg = vec![b, code, 0x12, 0x34];
+                    dg.extend(std::iter::repeat(0xAA).take(tkl as usize));
+                    match catch(|| Packet::from_bytes(&dg)) {
+                        Ok(Ok(p)) => {
+                            ensure!(
+                                p.header.code == expected_class(code) && p.header.get_type() == want_t,
+                                "c05-header-decode",
+                                "first byte {b:#04x} with code byte {code:#04x} parses as code {:?} type {:?}, expected {:?} {want_t:?}",
+                                p.header.code,
+                                p.header.get_type(),
+                                expected_class(code)
+                            );
+                            match catch(|| p.to_bytes()) {
+                                Ok(Ok(out)) => ensure!(
+                                    out == dg || (code == 0 && out.len() <= dg.len()),
+                                    "c05-header-encode",
+                                    "first byte {b:#04x} with code byte {code:#04x} re-encodes as {}",
+                                    crate::pkt::hex(&out)
+                                ),
+                                other => fail!("c05-header-encode", "re-encoding failed: {other:?}"),
+                            }
+                        }
+                        // a stricter parser may refuse version != 1 or content in a 0.00 message
+                        Ok(Err(_)) => ensure!(ver != 1, "c05-header-decode", "well-formed header {b:#04x} {code:#04x} rejected"),
+                        Err(msg) => fail!("c05-header-decode-panic", "from_bytes panicked on {b:#04x} {code:#04x}: {msg}"),
+                    }
+                }
+            }
+            // set_type from every previous state of type, code and token length
+            for prev in 0..4usize {
+                for code in [0x00u8, 0x01, 0x45, 0xFF] {
+                    for ptkl in [0u8, 3, 8] {
+                        let mut h = Header::new();
+                        h.code = MessageClass::from(code);
+                        h.set_token_length(ptkl);
+                        h.set_type(types[prev].0);
+                        h.set_type(want_t);
+                        ensure!(
+                            h.get_type() == want_t && h.get_token_length() == ptkl && h.code == MessageClass::from(code),
+                            "c05-header-setters",
+                            "set_type({want_t:?}) on a header with type {:?}, code {code:#04x}, token length {ptkl} reads back as type {:?} tkl {} code {:?}",
+                            types[prev].0,
+                            h.get_type(),
+                            h.get_token_length(),
+                            h.code
+                        );
+                    }
                 }
             }
             acc.nontrivial_enum();
